@@ -301,6 +301,11 @@ func checkC18(c *Check) {
 
 	// ---------- 4: matcher skeleton ----------
 	checkMatcherSkeleton(c)
+
+	// ---------- 5: every decision is computed afresh ----------
+	checkNoSharedState(c, "5/no-shared-state", func(path string) bool {
+		return strings.HasSuffix(path, "/runner/ptrace/filehandler") || strings.HasSuffix(path, "/runner/ptrace")
+	}, 1)
 }
 
 func checkMatcherSkeleton(c *Check) {
@@ -341,6 +346,13 @@ func checkMatcherSkeleton(c *Check) {
 				if k == name {
 					suffix = "<exact>"
 				}
+			}
+			// inside the walk, every lookup is about this iteration's name (the loop variable), not the parent that
+			// the end of the iteration computes: 'level == 1' then means "one level below the queried path"
+			if bk, ok := lk.Index.(*ssa.BinOp); ok && !isConstKey && suffix != "" && inLoop(b) {
+				_, isPhi := bk.X.(*ssa.Phi)
+				c.Cond(isPhi, "4/matcher-skeleton", fmt.Sprintf("%s:lookup-on-current-name(%s)", key, suffix), p.Pos(lk.Pos()), "the lookup key is built from the name of this iteration",
+					"the '"+suffix+"' lookup inside the walk is keyed by "+describe(bk.X)+" instead of the name of the current level: the depth test is off by one level (a 'd/*' entry covers grandchildren, or a 'd/' entry misses d itself)")
 			}
 			g := cd.guardOf(b)
 			switch suffix {
@@ -422,7 +434,7 @@ func checkMatcherSkeleton(c *Check) {
 	}
 	c.Cond(lvlOK, "4/matcher-skeleton", key+":level-counter", pos, "depth counter starts at 0 and steps by 1", "the depth counter does not start at 0 / step by 1")
 	c.Cond(nameOK, "4/matcher-skeleton", key+":walk-up", pos, "each iteration replaces the name by its parent (strict prefix up to the last '/')", "the walk does not move to the parent directory each iteration")
-	c.Expect("4/matcher-skeleton", 8)
+	c.Expect("4/matcher-skeleton", 10)
 }
 
 // strictPrefixHelper: returns path[:LastIndex(path,"/")] or "".
